@@ -8,6 +8,9 @@ mod props;
 mod pump;
 mod tree;
 
+#[global_allocator]
+static ALLOC: explore::ThreadCache = explore::ThreadCache;
+
 use explore::serde_json::{json, Value as J};
 use explore::{Args, Report, Tally, Tier};
 use props::*;
